@@ -1,29 +1,112 @@
 # C20: the s-expression reader inverts printing and fails cleanly on anything else
-U = ["src/compat/strlcpy.c"]                      # linked as its own unit
+U = ["src/compat/strlcpy.c"]                      # linked as its own unit (toolchain.h: no libc strlcpy)
 ENC = ["src/sx.c", "src/compat/strlcpy.c"]        # sx.c is #included by the harness TU (allocator renamed)
 CF = ["-D__NO_CTYPE"]
 
 INFO = {
-    "explanation": "TODO",
-    "bounds": {},
-    "outside_bounds": [],
-    "stubs": [],
-    "assumptions": [],
+    "explanation": (
+        "src/sx.c is compiled unchanged into the harness translation unit with malloc/calloc/free renamed to a "
+        "ledger allocator (static pools in CBMC mode, the real allocator plus counters in replay mode); the text is "
+        "an object of exactly LEN octets without terminator, so every read outside s[0..LEN) is a bounds failure. "
+        "Oracle: a reference lexer and (for lists) a reference recogniser written from the property text; the "
+        "printed form of a tree is its token sequence, so the returned tree is walked and must print to exactly the "
+        "reference token sequence. Instance families: "
+        "c20_token_lenN: sx_parse_token(s, N, i), all 256 octet values per position, every start i; "
+        "c20_atom_lenN: sx_parse(s, N, i) on the same inputs whose first token is not '(' (atoms, blank input, "
+        "broken tokens, stray ')'); "
+        "c20_list_aA_lenN: sx_parse(s, N, 0) on every text of length N over a small structural alphabet, real "
+        "sx_parse_list <-> sx_parse_ recursion bounded per function (unwinding assertions prove the bound), "
+        "sx_destroy replaced by its contract; "
+        "c20_destroy_step: the real sx_destroy body against that contract for an arbitrary root node with opaque "
+        "owned children (structural induction: holds for trees of any size); "
+        "LIMIT: the list layer is decided only for texts of length <= 2 (quick) / <= 3 (thorough: 5.8 M SAT "
+        "variables, 30 M clauses, 16 min, needs > 12 GB). The call tree of the two mutually recursive functions is "
+        "unrolled exponentially because text positions are symbolic; length 4 was not attempted. Nested lists, "
+        "lists with two or more elements and whitespace between two elements need >= 4 octets and are therefore "
+        "NOT decided."),
+    "bounds": {
+        "quick": {"token/atom": "LEN 0..5, all 256 octet values, every start position",
+                  "list": "LEN 1..2 over the alphabet ( ) space 1 a, start 0",
+                  "destroy": "any root node, children abstracted (inductive step)"},
+        "thorough": {"token/atom": "LEN 0..7, all 256 octet values, every start position",
+                     "list": "LEN 1..3 over ( ) space 1 a; LEN 1..2 over ( ) space tab 1 a F # x {",
+                     "destroy": "as quick"},
+    },
+    "outside_bounds": [
+        "lists in texts longer than 3 octets (quick: 2): nested lists, lists with more than one element, whitespace "
+        "between list elements, 'a nested empty list ends the enclosing list' (smallest witness '(())' has 4 octets)",
+        "atoms longer than 7 octets (LEN 8: no verdict in 20 min), integers that do not fit 64 bits",
+        "sx_parse_string / sx_parse_stringn wrappers (strlen + sx_parse), sx_cxr/sx_pop/sx_append/sx_foreach",
+        "allocation failure (the library exits the process)",
+    ],
+    "stubs": [
+        "malloc/calloc/free: ledger allocator of harness/C20/c20_common.h (never fails; fresh malloc memory holds an "
+        "arbitrary octet, calloc memory zero)",
+        "strchr, memcpy: exact byte loops",
+        "isspace/isdigit/isxdigit/tolower: CBMC's C-locale models (-D__NO_CTYPE); replay uses glibc",
+        "list instances only: sx_destroy replaced by its contract (proved for the real body by c20_destroy_step)",
+    ],
+    "assumptions": [
+        "lexical grammar = file comment of src/sx.c plus its symbol alphabet: whitespace is C-locale isspace; "
+        "delimiters are ( ) whitespace and the end of the text; symbols start with a letter or one of "
+        "+%|/_:;.!?$&=*<>~ and continue with those, digits and '-'",
+        "left undecided by the property text, every clean behaviour accepted: a NUL octet where a token starts, "
+        "continues or must end; a token starting with '-'; the prefix #X",
+        "an 'error status' is any status other than SXS_SUCCESS; which error code is not checked",
+        "cbmc 6.11 loses stores made through a pointer read from a union member in some encodings (see the "
+        "comments in c20_common.h); the pool model avoids the encodings where this was observed, and every witness "
+        "and every counterexample is re-executed on the gcc/ASan build",
+    ],
 }
 
 
-def token_inst(n, op):
+def _loops(n):
     b = n + 2
+    return {"skip_ws": b, "parse_symbol": b, "parse_integer_": b + 1, "digit2int": 18, "strchr": 72,
+            "strlcpy": b + 1, "vp_alloc_bytes": b + 1, "vp_free": 18, "vp_index_in": 18, "vp_sym_view": 18,
+            "vp_sym_block_size": 18, "vp_canaries_ok": 18,
+            "c20_destroy_contract": 2 * n + 2, "vp_exact_text": b, "ref_token": b, "check_atom": b,
+            "c20_in_alpha": 12, "ref_expression": b, "c20_atom_is": b, "c20_tree_prints_as": b,
+            "harness": b, "memcpy": b, "strlen": b}
+
+
+def token_inst(n, op):
+    # sx_parse_list:0 = the list reader must be unreachable (proved by its recursion unwinding assertion)
     return mk("c20_%s_len%d" % (("token", "atom")[op], n), "C20/c20_token.c", U,
               {"LEN": n, "OP": op, "NNODES": 1, "NPAIRS": 1, "NSYMS": 1},
-              unwind={"skip_ws": b, "parse_symbol": b, "parse_integer_": b + 1, "digit2int": 18,
-                      "strchr": 72, "strlcpy": b + 1, "vp_alloc": b + 1, "vp_free": 3,
-                      "vp_exact_text": b, "ref_token": b, "check_atom": b, "memcpy": b, "strlen": b},
-              extra_cbmc=["--unwindset", "sx_parse_list:0,sx_parse_:1,sx_destroy:1"],
+              unwind=_loops(n), extra_cbmc=["--unwindset", "sx_parse_list:0,sx_parse_:1,sx_destroy:1"],
               default_unwind=2, cflags=CF, encoded_units=ENC, replay_units=U,
-              hang_is_violation=True, replay_timeout=10)
+              hang_is_violation=True, replay_timeout=10,
+              desc="token layer, %s, all octet values, length %d" % (("sx_parse_token", "sx_parse")[op], n))
+
+
+def list_inst(n, alpha):
+    # LEN 3 is the largest feasible length: 5.8 M variables / 30 M clauses, about 9 GB resident (more
+    # while the formula is built), 16 min with cadical. LEN 4 was not attempted (estimated > 20 M variables).
+    big = n >= 3
+    return mk("c20_list_a%d_len%d" % (alpha, n), "C20/c20_list.c", U,
+              {"LEN": n, "ALPHA_ID": alpha, "NNODES": n + 1, "NPAIRS": n, "NSYMS": n},
+              unwind=_loops(n),
+              # (--slice-formula would save 15 % but removes the input struct from the witness traces)
+              extra_cbmc=["--unwindset", "sx_parse_list:%d,sx_parse_:%d" % (n, n)],
+              default_unwind=2, cflags=CF, encoded_units=ENC, replay_units=U, object_bits=12,
+              hang_is_violation=True, replay_timeout=10, timeout=3000 if big else 900,
+              mem_gb=34 if big else 14,
+              desc="list layer, every text of length %d over alphabet %d" % (n, alpha))
+
+
+def destroy_inst():
+    return mk("c20_destroy_step", "C20/c20_destroy.c", U, {"LEN": 3, "NNODES": 3, "NPAIRS": 1, "NSYMS": 1},
+              unwind=_loops(3), default_unwind=3, cflags=CF, encoded_units=ENC, replay_units=U,
+              hang_is_violation=True, replay_timeout=10,
+              desc="sx_destroy body vs. its contract, arbitrary root, opaque owned children")
 
 
 def instances(tier):
-    lens = range(0, 6) if tier == "quick" else range(0, 9)
-    return [token_inst(n, op) for n in lens for op in (0, 1)]
+    lens = range(0, 6) if tier == "quick" else range(0, 8)
+    out = [list_inst(2, 0), list_inst(1, 0)]
+    if tier != "quick":
+        out = [list_inst(3, 0)] + out + [list_inst(2, 1), list_inst(1, 1)]
+    out += [destroy_inst()]
+    out += [token_inst(n, op) for n in reversed(lens) for op in (0, 1)]
+    return out
